@@ -9,6 +9,8 @@
 //         lit   literal parsing
 //         conc  (C08) DAG under an abstract stimulus and sampled concretisations of its undefined bits
 //         concw (C08) like conc with wide operands
+//         mem   (C08) memories (2..16 words, widths 1..70, EXACT / default undefined-address behaviour, partly undefined contents) read
+//               asynchronously under abstract addresses and all their concretisations
 //         seq   (C08) DAG with registers, several clock cycles, abstract stimulus sequence vs concretisations (also of the
 //               undefined initial register contents); <stimuliPerCase> = number of runs
 #include <gatery/pch.h>
@@ -70,8 +72,6 @@ struct Builder {
 
 	size_t genWidth(size_t lo = 0, size_t hi = 200) {
 		size_t w = genWidth0(lo, hi);
-		// construction-time evaluation of a zero-width expression crashes (see report); keep most const cases alive
-		if (constMode && w == 0 && hi > 0 && !rng.chance(1, 12)) w = std::max<size_t>(lo, 1 + rng.below(std::min<size_t>(hi, 8)));
 		return w;
 	}
 	size_t genWidth0(size_t lo, size_t hi) {
@@ -474,7 +474,7 @@ struct Builder {
 			if (signedOp) { pa = rng.chance(1, 4) ? 'n' : 's'; pb = rng.chance(1, 4) ? 'n' : 's'; }
 			if (!(allowMalformed && rng.chance(1, 12))) {
 				// make it well-formed: the narrower operand needs a policy, sign extension needs a non-empty operand
-				bool cmpS = signedOp && name != "mul"; // these accept any policies: they call sext() themselves
+				bool cmpS = signedOp; // these accept any policies: the comparisons call sext() themselves, abs() of mul returns zext(res)
 				if (wa < wb && pa == 'n' && !cmpS) pa = signedOp ? 's' : 'z';
 				if (wb < wa && pb == 'n' && !cmpS) pb = signedOp ? 's' : 'z';
 				if (wa < wb && pa == 's' && wa == 0 && !signedOp) pa = 'o';
@@ -953,6 +953,120 @@ static void runSeq(uint64_t caseSeed, size_t id, size_t nruns, std::ostream &o) 
 	o << "end\n";
 }
 
+// C08, memories: two memories with the same shape share their read address pins; memory B holds a concretisation of the (partly
+// undefined) power-on contents of memory A.  Asynchronous read ports, EXACT or default undefined-address behaviour, optionally
+// post-processed.  Every abstract address (0..3 undefined bits) is followed by ALL its concretisations.
+static void runMem(uint64_t caseSeed, size_t id, std::ostream &o) {
+	Rng rng(caseSeed);
+	o << "case " << id << " mem " << caseSeed << '\n';
+	DesignScope design;
+	Clock clk({.absoluteFrequency = 100'000'000});
+	ClockScope clkScope(clk);
+	Builder b(rng, o);
+	size_t depth = rng.chance(1, 2) ? rng.range(2, 16) : rng.pick(std::vector<size_t>{2, 3, 4, 5, 7, 8, 9, 15, 16});
+	size_t w = rng.chance(1, 2) ? rng.range(1, 12) : rng.pick(std::vector<size_t>{1, 8, 31, 32, 33, 63, 64, 65, 70});
+	bool exact = rng.chance(2, 3);
+	bool post = rng.chance(1, 2);
+	size_t aw = BitWidth::count(depth).value;
+	// contents: A partly undefined, B a (partial or full) concretisation of A
+	std::vector<std::string> ca, cb;
+	int cstyle = (int)rng.below(4); // 0 random words, 1 few distinct words (merges keep defined bits), 2 mostly equal, 3 with undefined bits everywhere
+	std::vector<std::string> pool;
+	for (int i = 0; i < 3; i++) pool.push_back(b.genBits(w, 9));
+	for (size_t k = 0; k < depth; k++) {
+		std::string word = cstyle == 0 ? b.genBits(w, 9) : cstyle == 2 ? pool[rng.chance(1, 6) ? 1 : 0] : pool[rng.below(3)];
+		if (cstyle != 2 && rng.chance(1, 3)) { // flip a bit or two so that words mostly agree
+			word[rng.below(word.size())] ^= 1;
+		}
+		word = b.undefBits(word, cstyle == 3 ? (int)rng.range(1, 2) : (rng.chance(1, 4) ? 1 : 0));
+		ca.push_back(word);
+		cb.push_back(concretise(rng, word, rng.chance(2, 3)));
+	}
+	auto stateOf = [&](const std::vector<std::string> &c) {
+		sim::DefaultBitVectorState st; st.resize(depth * w);
+		for (size_t k = 0; k < depth; k++) st.insert(vh::bitsFromString(c[k]), k * w);
+		return st;
+	};
+	o << "mem " << depth << ' ' << w << ' ' << exact << ' ' << post << ' ' << aw << '\n';
+	o << "ca"; for (auto &x : ca) o << ' ' << x; o << '\n';
+	o << "cb"; for (auto &x : cb) o << ' ' << x; o << '\n';
+	size_t nports = rng.range(1, 3);
+	std::vector<hlim::Node_Pin*> addrPins;
+	std::vector<hlim::Node_Pin*> outA, outB;
+	try {
+		Memory<UInt> memA(depth, UInt(BitWidth(w))), memB(depth, UInt(BitWidth(w)));
+		memA.setType(MemType::DONT_CARE, 0); memB.setType(MemType::DONT_CARE, 0);
+		memA.fillPowerOnState(stateOf(ca)); memB.fillPowerOnState(stateOf(cb));
+		if (exact) { memA.undefinedReadAddrBehavior(UndefinedReadAddrBehavior::EXACT); memB.undefinedReadAddrBehavior(UndefinedReadAddrBehavior::EXACT); }
+		for (size_t p = 0; p < nports; p++) {
+			InputPins ap = pinIn(BitWidth(aw));
+			UInt addr = ap;
+			addrPins.push_back(ap.node());
+			UInt da = memA[addr];
+			UInt db = memB[addr];
+			outA.push_back(pinOut(da).node());
+			outB.push_back(pinOut(db).node());
+		}
+		if (post) design.postprocess();
+	} catch (const std::exception &e) {
+		std::string m = e.what(); for (auto &c : m) if (c == '\n') c = ' ';
+		o << "builderr " << m.substr(0, 200) << "\nend\n"; return;
+	}
+	o << "ports " << nports << '\n';
+	try {
+		vh::Sim sim(design.getCircuit());
+		size_t nstim = 6;
+		for (size_t s = 0; s < nstim; s++) {
+			// abstract addresses: 0..3 undefined bits per port
+			std::vector<std::string> abs;
+			for (size_t p = 0; p < nports; p++) {
+				std::string a;
+				for (int tries = 0; tries < 20; tries++) {
+					a = b.genBits(aw, 9);
+					size_t nu = std::min<size_t>(rng.below(4), aw);
+					for (size_t k = 0; k < nu; k++) a[rng.below(a.size())] = 'x';
+					// EXACT + undefined address bits + smallest candidate beyond the memory: Node_MemPort.cpp:230 asserts. Kept rare.
+					std::string lo = a; for (auto &c : lo) if (c == 'x') c = '0';
+					bool throws = exact && lo != a && std::stoull(lo, nullptr, 2) >= depth;
+					if (!throws || rng.chance(1, 40)) break;
+				}
+				abs.push_back(a);
+			}
+			// all concretisations of port 0's address combined with sampled ones of the other ports; run 0 is the abstract one
+			std::vector<std::string> c0{abs[0]};
+			{
+				std::vector<size_t> xs; for (size_t i = 0; i < abs[0].size(); i++) if (abs[0][i] == 'x') xs.push_back(i);
+				for (size_t m = 0; m < (size_t(1) << xs.size()) && !xs.empty(); m++) {
+					std::string c = abs[0];
+					for (size_t j = 0; j < xs.size(); j++) c[xs[j]] = ((m >> j) & 1) ? '1' : '0';
+					c0.push_back(c);
+				}
+			}
+			for (size_t r = 0; r < c0.size(); r++) {
+				o << (r == 0 ? "stim " : "stimc ") << s << '\n';
+				for (size_t p = 0; p < nports; p++) {
+					std::string a = p == 0 ? c0[r] : (r == 0 ? abs[p] : concretise(rng, abs[p], rng.chance(1, 2)));
+					sim.set(addrPins[p], a);
+					o << "pv " << p << ' ' << a << '\n';
+				}
+				try {
+					sim.eval();
+				} catch (const std::exception &e) {
+					std::string m = e.what(); for (auto &c : m) if (c == '\n') c = ' ';
+					o << "rdthrow " << m.substr(0, 120) << '\n';
+					continue;
+				}
+				for (size_t p = 0; p < nports; p++)
+					o << "rd " << p << ' ' << sim.getPin(outA[p]) << ' ' << sim.getPin(outB[p]) << '\n';
+			}
+		}
+	} catch (const std::exception &e) {
+		std::string m = e.what(); for (auto &c : m) if (c == '\n') c = ' ';
+		o << "simerr " << m.substr(0, 200) << '\n';
+	}
+	o << "end\n";
+}
+
 // literal parsing: "lit <string>" -> bits or e
 static void runLit(uint64_t caseSeed, size_t id, std::ostream &o) {
 	Rng rng(caseSeed);
@@ -999,7 +1113,7 @@ static void runLit(uint64_t caseSeed, size_t id, std::ostream &o) {
 #include <ext/stdio_filebuf.h>
 
 static void runOne(uint64_t cs, size_t i, const std::string &mode, size_t nstim, std::ostream &o) {
-	if (mode == "lit") runLit(cs, i, o); else if (mode == "seq") runSeq(cs, i, nstim, o); else runCase(cs, i, mode, nstim, o);
+	if (mode == "lit") runLit(cs, i, o); else if (mode == "mem") runMem(cs, i, o); else if (mode == "seq") runSeq(cs, i, nstim, o); else runCase(cs, i, mode, nstim, o);
 }
 
 static std::string runIsolated(uint64_t cs, size_t i, const std::string &mode, size_t nstim, bool streaming, int &status) {
@@ -1043,7 +1157,7 @@ int main(int argc, char **argv) {
 	size_t nstim = (size_t)vh::argU64(argc, argv, 4, mode == "conc" || mode == "concw" ? 9 : 8);
 	std::ios::sync_with_stdio(false);
 	std::cout << "# prop=C03/C08 seed=" << seed << " mode=" << mode << '\n';
-	uint64_t modeSalt = mode == "op" ? 11 : mode == "dag" ? 23 : mode == "dags" ? 29 : mode == "const" ? 37 : mode == "lit" ? 41 : mode == "conc" ? 53 : mode == "seq" ? 71 : 67;
+	uint64_t modeSalt = mode == "op" ? 11 : mode == "dag" ? 23 : mode == "dags" ? 29 : mode == "const" ? 37 : mode == "lit" ? 41 : mode == "conc" ? 53 : mode == "seq" ? 71 : mode == "mem" ? 79 : 67;
 	// splitmix64 advances its state by a constant: seeding with seed*constant would make consecutive seeds shifted copies of
 	// each other, so the master state is the *output* of a generator seeded with (seed, mode)
 	Rng master(Rng(seed ^ (modeSalt << 40)).next());
